@@ -340,6 +340,16 @@ def idn_domains(tier, rng, mdl):
             U = ".".join(labs).encode("utf-8")
             A = b".".join(to_alabel(l) for l in labs)
         out.append((U, A))
+    # IDNA full-stop variants (U+3002, U+FF0E, U+FF61) as separators and as root label: same name as with '.'
+    for i in range(40 if tier == "quick" else 600):
+        script = scripts[i % len(scripts)]
+        labs = [idn_label(rng, script, False) for _ in range(rng.randrange(1, 3))]
+        tldu, tlda = rng.choice([("com", b"com"), ("рф", b"xn--p1ai"), ("org", b"org")]) if script not in RTL else ("com", b"com")
+        for dot in ("。", "．", "｡"):
+            for root in ("", dot, "."):
+                U = (dot.join(labs + [tldu]) + root).encode("utf-8")
+                A = b".".join([to_alabel(l) for l in labs] + [tlda]) + (b"." if root else b"")
+                out.append((U, A))
     # long domains: many bytes in UTF-8, but an A-label form within the DNS limits (computed here, anchored on libidn2 later)
     for i in range(200 if tier == "quick" else 4000):
         script = scripts[i % len(scripts)]
@@ -367,3 +377,7 @@ def idn_domains(tier, rng, mdl):
 NEGATIVE_IDN = [b"\xff.com", b"a\xc3.com", b"\xc0\x80.com", b"\xed\xa0\x80.ru", "☕.de".encode(), "I♥NY.de".encode(), "😀.com".encode(),
                 "-é.com".encode(), "é-.com".encode(), "ab--é.com".encode(), ("é" * 70 + ".com").encode(), "a‍b.com".encode(),
                 "́a.com".encode(), "a.ـ.com".encode(), "xn--" .encode() + b"a" * 70 + b".com"]
+# code points UTS#46 maps to nothing: libidn2 removes them before the IDNA2008 checks (documented behaviour of the IDN library, not
+# an IDNA violation the validator could reject) - executed for robustness (sanitizers), never judged
+IGNORABLE_IDN = ["\u00ad".encode(), "\u200b".encode(), "\u00ad.\u00ad".encode(), "\ufe0f".encode(), "\u00ad\u200b\u2060".encode(),
+                 "a.\u00ad".encode(), "\u00ad.com".encode(), "a\u00adb.\u200b.com".encode(), "\u034f.\u034f".encode()]
